@@ -24,7 +24,7 @@ func newFileRun(tw *trace.Writer, ctx string, dir string, memKB int) (*sqlRun, e
 		return nil, fmt.Errorf("engine start panicked: %s", pm)
 	}
 	s := &sqlRun{tw: tw, e: e, ctx: ctx}
-	s.emit(map[string]interface{}{"ev": "Reset", "memKB": memKB})
+	s.emit(map[string]interface{}{"ev": "Reset", "memKB": memKB, "sc": curScenario})
 	return s, nil
 }
 
@@ -85,7 +85,6 @@ func sqlC09(args []string) error {
 	dir := args[2]
 	ctx := args[3]
 	os.MkdirAll(dir, 0o755)
-	rng := rand.New(rand.NewSource(envSeed()))
 	pools := []int{64, 128, 256, 512}
 	if ctx == "C07" {
 		pools = []int{1024, 2048, 4096} // a hash index keeps its bucket pages resident
@@ -93,7 +92,8 @@ func sqlC09(args []string) error {
 	if ctx == "C10" {
 		pools = []int{256, 512, 1024} // up to four tables with up to four indexed columns: each index keeps pages pinned
 	}
-	for sc := 0; sc < nscen; sc++ {
+	for sc := envStart(); sc < nscen; sc++ {
+		rng := scenarioRng(sc)
 		pool := pools[rng.Intn(len(pools))]
 		if ctx == "C09" && pool < 1024 && sc%2 == 1 {
 			pool = 1024 // the scenarios with a second, large table and a join: more pages pinned at a time
